@@ -482,7 +482,10 @@ def no_expr_statement(F, rep, T):
     for name, s in sorted(T.S.items()):
         if s["dest"] is not None:
             rep.ob("NO-EXPR-STATEMENT", name, s["droppable"] and s["text_many"].startswith("local {name:%d} = " % s["dest"]),
-                   "IR::%s: unused -> nothing, used once -> inlined, otherwise `%s`" % (name, s["text_many"]))
+                   "IR::%s: unused -> nothing, used once -> inlined, otherwise `%s`" % (name, s["text_many"]) if s["droppable"] else
+                   "IR::%s: when its value is unused the emitter still writes something on some path (an arm for use count 0 has a "
+                   "write): the expression text (`%s`) alone on a line is not a Lua statement unless it happens to be a call"
+                   % (name, s["text_many"]))
     s = T.S.get("Call")
     rep.ob("NO-EXPR-STATEMENT", "Call", bool(s) and s["text_many"].startswith("local {expand:0} = "),
            "a call is always bound: `%s`" % (s["text_many"] if s else None))
